@@ -619,7 +619,8 @@ pub fn run(case: &Value, seed: u64) -> Obj {
         64 => run_typed::<64>(&mut env, &ctx, groups, &mut rng, &mut out),
         256 => run_typed::<256>(&mut env, &ctx, groups, &mut rng, &mut out),
         1024 => run_typed::<1024>(&mut env, &ctx, groups, &mut rng, &mut out),
-        _ => return unsupported(case, "max_pdi must be 16, 64, 256 or 1024"),
+        16384 => run_typed::<16384>(&mut env, &ctx, groups, &mut rng, &mut out),
+        _ => return unsupported(case, "max_pdi must be 16, 64, 256, 1024 or 16384"),
     }
 
     out.insert(
